@@ -452,3 +452,30 @@ def calm_thread_pools():
     finally:
         os.sched_setaffinity(0, full)
     return True
+
+
+def hang_dump(prop, spec, fraction=0.85):
+    """Diagnostic for shard watchdog timeouts: shortly before the harness would kill the shard, dump the Python
+    stacks to /verif/.build/hang-<prop>-<shard>.txt (removed again when the shard finishes normally)."""
+    import faulthandler
+    import os
+
+    d = os.path.join(os.path.dirname(os.path.dirname(os.path.abspath(__file__))), ".build")
+    os.makedirs(d, exist_ok=True)
+    path = os.path.join(d, f"hang-{prop}-{spec.get('shard')}-seed{spec.get('seed')}.txt")
+    f = open(path, "w")
+    faulthandler.dump_traceback_later(max(30, int(spec.get("timeout", 1500) * fraction)), file=f, exit=False)
+    return (path, f)
+
+
+def hang_dump_done(h):
+    import faulthandler
+    import os
+
+    faulthandler.cancel_dump_traceback_later()
+    path, f = h
+    f.close()
+    try:
+        os.remove(path)
+    except OSError:
+        pass
